@@ -19,9 +19,12 @@ type rmsg struct {
 	c *int
 	f *[2]int // nested message ForeignMessage{c, d}
 	r []int   // repeated field
+	// the second message type (OpenClosePosition): open_percent and open_percent_tween{progress}
+	p int
+	t *int
 }
 
-var allFields = []string{"a", "s", "c", "f", "r"}
+var allFields = []string{"a", "s", "c", "f", "r", "p", "t"}
 
 func rparse(s string) rmsg {
 	p := strings.Split(s, "/")
@@ -31,7 +34,14 @@ func rparse(s string) rmsg {
 		c, _ := strconv.Atoi(p[2])
 		m.c = &c
 	}
-	if len(p) == 5 {
+	if len(p) == 7 {
+		m.p, _ = strconv.Atoi(p[5])
+		if p[6] != "-" {
+			g, _ := strconv.Atoi(p[6])
+			m.t = &g
+		}
+	}
+	if len(p) >= 5 {
 		if p[3] != "-" {
 			cd := strings.Split(p[3], ":")
 			c, _ := strconv.Atoi(cd[0])
@@ -48,13 +58,27 @@ func rparse(s string) rmsg {
 	return m
 }
 
-func (m rmsg) String() string {
+func (m rmsg) String() string { return m.text(false) }
+
+// posString: the seven-part text even when the position fields are at their defaults (the text of a
+// message the harness hands to the code decides which real message type is built)
+func (m rmsg) posString() string { return m.text(true) }
+
+func (m rmsg) text(pos bool) string {
 	c := "-"
 	if m.c != nil {
 		c = strconv.Itoa(*m.c)
 	}
 	s := fmt.Sprintf("%d/%s/%s", m.a, m.s, c)
-	if m.f != nil || len(m.r) > 0 {
+	tail := ""
+	if m.p != 0 || m.t != nil || pos {
+		t := "-"
+		if m.t != nil {
+			t = strconv.Itoa(*m.t)
+		}
+		tail = "/" + strconv.Itoa(m.p) + "/" + t
+	}
+	if m.f != nil || len(m.r) > 0 || tail != "" {
 		f, r := "-", "-"
 		if m.f != nil {
 			f = fmt.Sprintf("%d:%d", m.f[0], m.f[1])
@@ -68,7 +92,7 @@ func (m rmsg) String() string {
 		}
 		s += "/" + f + "/" + r
 	}
-	return s
+	return s + tail
 }
 
 func (m rmsg) equal(o rmsg) bool { return m.String() == o.String() }
@@ -83,6 +107,10 @@ func (m rmsg) get(f string) any {
 		return m.f
 	case "r":
 		return m.r
+	case "p":
+		return m.p
+	case "t":
+		return m.t
 	}
 	return m.c
 }
@@ -98,6 +126,10 @@ func (m rmsg) populated(f string) bool {
 		return m.c != nil
 	case "f":
 		return m.f != nil
+	case "p":
+		return m.p != 0
+	case "t":
+		return m.t != nil
 	}
 	return len(m.r) > 0
 }
@@ -118,6 +150,14 @@ func (m *rmsg) set(f string, v any) {
 		}
 	case "r":
 		m.r = append([]int(nil), v.([]int)...)
+	case "p":
+		m.p = v.(int)
+	case "t":
+		m.t = nil
+		if g := v.(*int); g != nil {
+			cp := *g
+			m.t = &cp
+		}
 	}
 }
 
@@ -133,6 +173,10 @@ func (m *rmsg) clear(f string) {
 		m.f = nil
 	case "r":
 		m.r = nil
+	case "p":
+		m.p = 0
+	case "t":
+		m.t = nil
 	}
 }
 
@@ -224,7 +268,7 @@ func (o *oracle) validate(op Op) string {
 		if w, restricted := o.writable(op); restricted {
 			for _, l := range ls {
 				// a path is writable when it is a writable path or lies inside one (f.c inside f)
-				if !w[l] && !((l == "fc" || l == "fd" || l == "fx") && w["f"]) {
+				if !w[l] && !((l == "fc" || l == "fd" || l == "fx") && w["f"]) && !(l == "tp" && w["t"]) {
 					return "InvalidArgument"
 				}
 			}
@@ -324,16 +368,36 @@ func (o *oracle) write(op Op, old *rmsg) (rmsg, string) {
 			}
 			dst.f = &cur
 		}
+		// the same for the second nested message, open_percent_tween with its one modelled sub-field. Its
+		// name starts with the name of its sibling open_percent: naming (or allowing) one of the two says
+		// nothing about the other
+		wholeT, leafTP := !restricted || w["t"], false
+		if !wholeT {
+			leafTP = w["tp"]
+		}
+		if hasUM && !m["t"] {
+			wholeT, leafTP = false, m["tp"]
+		}
+		if !wholeT && leafTP && (dst.t != nil || src.t != nil) {
+			g := 0
+			if src.t != nil {
+				g = *src.t
+			}
+			dst.t = &g
+		}
 		for _, f := range allFields {
 			selected := (!restricted || w[f]) && (!hasUM || m[f])
 			if f == "f" {
 				selected = wholeF && (!hasUM || m["f"])
 			}
+			if f == "t" {
+				selected = wholeT && (!hasUM || m["t"])
+			}
 			if !selected {
 				continue
 			}
 			switch {
-			case !hasUM || !src.populated(f) || (f != "f" && f != "r"):
+			case !hasUM || !src.populated(f) || (f != "f" && f != "r" && f != "t"):
 				// no update mask: the written message replaces; under a mask: a scalar is replaced, and
 				// any field the written message does not populate is cleared
 				dst.set(f, src.get(f))
@@ -349,6 +413,15 @@ func (o *oracle) write(op Op, old *rmsg) (rmsg, string) {
 					}
 				}
 				dst.f = &cur
+			case f == "t":
+				g := 0
+				if dst.t != nil {
+					g = *dst.t
+				}
+				if *src.t != 0 {
+					g = *src.t
+				}
+				dst.t = &g
 			default:
 				// under a mask a repeated field is appended to
 				dst.r = append(append([]int(nil), dst.r...), src.r...)
@@ -368,6 +441,10 @@ func (o *oracle) write(op Op, old *rmsg) (rmsg, string) {
 					cur[1] = 0
 				}
 				dst.f = &cur
+			}
+			if !rset["t"] && rset["tp"] && dst.t != nil {
+				z := 0
+				dst.t = &z
 			}
 		}
 	}
@@ -563,6 +640,10 @@ func project(op Op, m rmsg) rmsg {
 			sub[1] = m.f[1]
 		}
 		out.f = &sub
+	}
+	if !keep["t"] && keep["tp"] && m.t != nil {
+		g := *m.t
+		out.t = &g
 	}
 	return out
 }
